@@ -32,6 +32,13 @@ use crate::sasl_profile::{SCRAM_SHA_1, SCRAM_SHA_256, SCRAM_SHA_512};
 /// Default iterations for SCRAM
 pub const DEFAULT_SCRAM_ITERATIONS: u32 = 4096;
 
+/// The largest iteration count a client accepts from a server.
+///
+/// The iteration count of the server-first message is chosen by the peer and decides how
+/// long the key derivation runs; anything above this ceiling is refused before any work is
+/// done. Deployments use counts between 4096 and a few hundred thousand.
+pub const MAX_SCRAM_ITERATIONS: u32 = 10_000_000;
+
 /// The server stores only the `username`, `salt`, `iteration-count`, `StoredKey`, `ServerKey`.
 ///
 /// `StoredKey` = `H(ClientKey)`
@@ -207,6 +214,9 @@ impl ScramVersion {
         let iterations: u32 = iter_count_str
             .parse()
             .map_err(|_| ScramErrorKind::IterationCountParseError)?;
+        if iterations > MAX_SCRAM_ITERATIONS {
+            return Err(ScramErrorKind::IterationCountParseError);
+        }
 
         // SaltedPassword := Hi(Normalize(password), salt, i)
         // ClientKey := HMAC(SaltedPassword, "Client Key")
